@@ -735,7 +735,7 @@ def parser(literal_string, simple_ident, all_columns=None, sqlserver=False):
         # CREATE INDEX a ON u USING btree (e);
         create_index = (
             keyword("create index")
-            + Optional(keyword("or") + flag("replace"))(INDEX | KEY)
+            + Optional(keyword("or") + flag("replace"))
             + Optional((keyword("if not exists") / False)("replace"))
             + identifier("name")
             + ON
@@ -748,7 +748,7 @@ def parser(literal_string, simple_ident, all_columns=None, sqlserver=False):
         create_schema = assign(
             "create schema",
             Group(
-                Optional(keyword("or") + flag("replace"))(INDEX | KEY)
+                Optional(keyword("or") + flag("replace"))
                 + Optional((keyword("if not exists") / False)("replace"))
                 + identifier("name")
             ),
